@@ -35,7 +35,7 @@ class C12(Spec):
     pid = "C12"
     groups = ["vrender", "vpub"]
     title = "The number shown next to a link opens exactly that link"
-    oracle_filter = {"wf_out"}
+    oracle_filter = {"wf_out", "links_equal_model"}
     no_compare_ops = ("item",)
     rule = ("documents from the HTML grammar (anchors with unique label texts L<n> and unique targets, nested anchors, a>img, "
             "a>b>img, media with/without src and alt, anchors without href), the same kinds of links in Markdown, gemtext link lines "
@@ -84,6 +84,27 @@ class C12(Spec):
                 xitems.append(c06.itemx_case(asgen.post(rng, 1, 0.05), 0, [rng.choice((200, 80, 30, 7))], list(range(-1, 12))))
             else:
                 xitems.append(c06.itemx_case(asgen.actor(rng, 1, 0.05), 1, [rng.choice((200, 80, 30, 7))], list(range(-1, 12))))
+        # which link is chosen: several candidates with matching / other / missing / malformed media types and sizes (SelectBestLink)
+        from jsongen import Num
+        def cand(i):
+            d = {"type": rng.choice(["Link", "Link", "Link", "Image", "Video"])}
+            d["href" if d["type"] == "Link" else "url"] = "https://m.example/c%d" % i
+            r = rng.random()
+            if r < 0.7:
+                d["mediaType"] = rng.choice(["image/png", "image/jpeg", "video/mp4", "audio/ogg", "text/html", "bogus", ""])
+            for k in ("height", "width"):
+                if rng.random() < 0.6:
+                    d[k] = rng.choice([Num("1"), Num("2"), Num("10"), Num("100"), Num("0"), Num("4294967296"), Num("6074001000"), Num("-1"), Num("1.5"), "x"])
+            return d
+        for _ in range(150 if tier == "quick" else 8000):
+            n = rng.randint(1, 4)
+            if rng.random() < 0.5:
+                doc = {"type": rng.choice(["Person", "Group"]), "name": "A", "icon": [cand(i) for i in range(n)], "image": [cand(10 + i) for i in range(rng.randint(0, 3))]}
+                xitems.append(c06.itemx_case(doc, 1, [80], [1]))
+            else:
+                doc = {"type": rng.choice(["Video", "Image", "Audio", "Note", "Article"]), "name": "P", "content": "x", "url": [cand(i) for i in range(n)],
+                       "attachment": [cand(20 + i) for i in range(rng.randint(0, 3))]}
+                xitems.append(c06.itemx_case(doc, 0, [80], list(range(0, 6))))
         self.xitems = xitems
         return [Batch("c12", cases, correspondence="Markup.Render + links == render_full"),
                 Batch("c12-items", items, env={"VERIF_CASE_TIMEOUT": "20"}, correspondence="numbers shown by String == numbers SelectLink accepts"),
